@@ -4,7 +4,7 @@ from vk.kernels import c12 as K
 
 
 def run(rep, tier, seed, args):
-    jobs = K.jobs(tier)
+    jobs = common.with_xsolver(K.jobs(tier), cap=1000 if tier == "quick" else 100000)
     n = 4 if tier == 'quick' else 8
     rep.rule = ('one case = one path of the real parse_attrs / parse_set_triple / OutSet operator for one enumerated shape (type x any_inputs x '
                 'presence pattern of the five keys; operator x finite/co-finite operands) with the CONTENTS of every present set symbolic '
